@@ -5,7 +5,7 @@ import schema as S
 import refs as R
 from refs import Seq, Set, Tagged, Prim, Cond, Rep, Choice, Time, P, C, ext
 import common
-from interp import core, places, calls_of, PhiV, CallV, DerV, Interp
+from interp import Def, roots, core, places, calls_of, PhiV, CallV, DerV, Interp
 
 PROP = "C02"
 CONFIGS_QUICK = ["K1", "K2", "K3"]
@@ -219,33 +219,29 @@ def check_tables(cfg, crate, rep):
         rep.sample({"rule": "C02.tables", "fn": fn, "table": tab})
     table("SanType::tag", {"OtherName": 0, "Rfc822Name": 1, "DnsName": 2, "URI": 6, "IpAddress": 7}, "GeneralName tag (RFC 5280 4.2.1.6)")
     table("certificate::GeneralSubtree::tag", {"Rfc822Name": 1, "DnsName": 2, "DirectoryName": 4, "IpAddress": 7}, "GeneralName tag")
-    # key usage: FLAG >> n
+    # key usage: the bit mask of every variant, by exhaustive constant propagation (analysis L)
     fn = "KeyUsagePurpose::to_u16"
     rep.fn(fn)
-    out = I.run_fn(fn)
-    v = core(out["value"])
-    ok = False
-    from interp import OpV
-    if isinstance(v, OpV) and v.op == ">>":
-        flag = I.concrete(v.args[0])
-        sh = core(v.args[1])
-        if isinstance(sh, PhiV) and flag is not None:
-            ok = True
-            seen = {}
-            for c, x in sh.alts:
-                names = S._variants_of(c)
-                val = I.concrete(x)
-                for nm in names or []:
-                    seen[nm] = (flag >> val) if val is not None else None
-            for nm, bit in KU_BITS.items():
-                want = 0x8000 >> bit
-                rep.ob("C02.tables", "%s|%s|%s" % (cfg, fn, nm), seen.get(nm) == want, "KeyUsage bit %d (RFC 5280 4.2.1.3), big-endian u16 mask" % bit, expected=hex(want), found=hex(seen[nm]) if seen.get(nm) is not None else None)
-            for nm in seen:
-                if nm not in KU_BITS:
-                    rep.fail("C02.tables", "%s|%s|%s" % (cfg, fn, nm), "variant not in the reference table")
-            rep.sample({"rule": "C02.tables", "fn": fn, "table": {k: hex(x) for k, x in seen.items() if x is not None}})
-    if not ok:
-        rep.fail("C02.tables", "%s|%s" % (cfg, fn), "key usage bit table not extractable (expected FLAG >> match self {..})")
+    import ceval
+    E = ceval.Eval(crate)
+    vals = ceval.enum_values(crate, "KeyUsagePurpose")
+    if not vals:
+        rep.fail("C02.tables", "%s|%s" % (cfg, fn), "KeyUsagePurpose is not a field-less enum any more")
+    else:
+        seen = {}
+        for v in vals:
+            nm = v.variant.split("::")[-1]
+            try:
+                seen[nm] = E.call(fn, [v])
+            except (ceval.Unsupported, ceval.Panic) as e:
+                seen[nm] = "%s: %s" % (type(e).__name__, e)
+        for nm, bit in KU_BITS.items():
+            want = 0x8000 >> bit
+            rep.ob("C02.tables", "%s|%s|%s" % (cfg, fn, nm), seen.get(nm) == want, "KeyUsage bit %d (RFC 5280 4.2.1.3), big-endian u16 mask" % bit, expected=hex(want), found=hex(seen[nm]) if isinstance(seen.get(nm), int) else seen.get(nm))
+        for nm in seen:
+            if nm not in KU_BITS:
+                rep.fail("C02.tables", "%s|%s|%s" % (cfg, fn, nm), "variant not in the reference table")
+        rep.sample({"rule": "C02.tables", "fn": fn, "table": {k: hex(x) for k, x in seen.items() if isinstance(x, int)}})
     # EKU OIDs
     fn = "certificate::ExtendedKeyUsagePurpose::oid"
     rep.fn(fn)
@@ -299,32 +295,30 @@ def check_tables(cfg, crate, rep):
 
 
 def cidr(cfg, crate, I, rep):
-    for fn, width in (("certificate::CidrSubnet::from_v4_prefix", "u32"), ("certificate::CidrSubnet::from_v6_prefix", "u128")):
+    import ceval
+    for fn, width, n in (("certificate::CidrSubnet::from_v4_prefix", 32, 4), ("certificate::CidrSubnet::from_v6_prefix", 128, 16)):
         rep.fn(fn)
-        b = crate.body(fn)
-        calls = [n for n in common.hir_walk(b["hir"]) if n["k"] in ("Call", "MethodCall")]
-        tys = {n.get("callee") for n in calls}
-        has_max = any(c and c.endswith("::max_value") and ("<%s>" % width in c or "%s::" % width in c or width in c) for c in tys) or any(n.get("ty") == width for n in calls)
-        be = any(c and c.endswith("to_be_bytes") for c in tys)
-        shr = any(c and c.endswith("checked_shr") for c in tys)
-        neg = any(n["k"] == "Unary" and n["op"] == "!" for n in common.hir_walk(b["hir"]))
-        rep.ob("C02.tables", "%s|%s|mask" % (cfg, fn), has_max and be and shr and neg,
-               "mask = !(%s::MAX.checked_shr(prefix).unwrap_or(0)) in network byte order" % width,
-               expected="max_value/checked_shr/!/to_be_bytes over %s" % width, found=sorted(x for x in tys if x))
-        out = Interp(crate).run_fn(fn)
-        v = core(out["value"])
-        from interp import StructV
-        want_variant = "V4" if width == "u32" else "V6"
-        if isinstance(v, StructV) and "1" in v.fields:
-            got = core(v.fields["1"]).r()
-            W = "core::num::<impl %s>::" % width
-            shapes = [
-                W + "to_be_bytes(!(std::option::Option::unwrap_or(" + W + "checked_shr(" + W + "max_value(), prefix.as:u32), 0)))",
-                W + "to_be_bytes(!(std::option::Option::unwrap_or(" + W + "checked_shr(" + W + "MAX, prefix.as:u32), 0)))",
-            ]
-            rep.ob("C02.tables", "%s|%s|mask-shape" % (cfg, fn), got in shapes, "the mask is exactly !(MAX.checked_shr(prefix) or 0 when prefix >= width) in network byte order (a wrapping / unchecked shift, a shifted prefix or another fallback gives wrong masks for some prefix lengths)", expected=shapes[0], found=got)
-        ok = isinstance(v, StructV) and (v.variant or "").endswith(want_variant) and places(v.fields.get("0")) == {"addr"} and "prefix" in places(v.fields.get("1"))
-        rep.ob("C02.tables", "%s|%s|pairing" % (cfg, fn), ok, "%s(addr, mask(prefix))" % want_variant, found=v.r())
+        E = ceval.Eval(crate)
+        addr = [(17 * i + 3) & 0xff for i in range(n)]
+        bad = {}
+        variant_ok = True
+        for prefix in range(256):
+            try:
+                r = E.call(fn, [list(addr), prefix])
+            except (ceval.Unsupported, ceval.Panic) as e:
+                bad[prefix] = "%s: %s" % (type(e).__name__, e)
+                continue
+            p_ = min(prefix, width)
+            want_mask = list((((1 << width) - 1) ^ ((1 << (width - p_)) - 1)).to_bytes(n, "big"))
+            if not isinstance(r, ceval.Adt) or not (r.variant or "").endswith("V4" if n == 4 else "V6"):
+                variant_ok = False
+                bad[prefix] = repr(r)[:60]
+            elif r.fields.get("0") != addr or r.fields.get("1") != want_mask:
+                bad[prefix] = "addr %s mask %s, expected mask %s" % (r.fields.get("0"), r.fields.get("1"), want_mask)
+        rep.ob("C02.tables", "%s|%s|mask" % (cfg, fn), not bad,
+               "for every prefix length 0..=255 the subnet is (addr unchanged, mask = the top min(prefix, %d) bits set, network byte order) - evaluated for all 256 prefixes" % width,
+               expected="256 prefixes agree", found={k: bad[k] for k in sorted(bad)[:4]} or "256 prefixes agree")
+        rep.ob("C02.tables", "%s|%s|pairing" % (cfg, fn), variant_ok, "%s(addr, mask(prefix))" % ("V4" if n == 4 else "V6"))
     fn = "certificate::CidrSubnet::from_addr_prefix"
     rep.fn(fn)
     v = core(Interp(crate).run_fn(fn)["value"])
@@ -336,7 +330,7 @@ def cidr(cfg, crate, I, rep):
         I2 = Interp(crate)
         v = core(I2.run_fn(fn)["value"])
         calls = [(c, a) for c, a, n_, cnd, f in I2.calls if c == "certificate::CidrSubnet::from_addr_prefix"]
-        ok = len(calls) == 1 and any(x.endswith("for std::net::IpAddr>::from_str") for x in calls_of(calls[0][1][0])) and any(x.endswith("for u8>::from_str") for x in calls_of(calls[0][1][1])) \
+        ok = len(calls) == 1 and "parse::<std::net::IpAddr>" in calls_of(calls[0][1][0]) and "parse::<u8>" in calls_of(calls[0][1][1]) \
             and not [r for r in (S.roots(calls[0][1][0]) | S.roots(calls[0][1][1])) if r.startswith("op:") and r != "op:mutated"]
         rep.ob("C02.tables", "%s|%s" % (cfg, fn), ok, "`addr/prefix` text is parsed into (IpAddr, u8) and passed on unchanged", found=[core(x).r()[-90:] for x in calls[0][1]] if calls else None)
     # DnType::from_oid is the inverse of to_oid
@@ -360,14 +354,19 @@ def cidr(cfg, crate, I, rep):
     rep.ob("C02.tables", "%s|%s" % (cfg, fn), inv == DN_OIDS and custom_ok, "from_oid is the inverse of to_oid (each registered OID maps to its attribute type; anything else becomes CustomDnType(oid))", expected=DN_OIDS, found=inv)
     fn = "certificate::CidrSubnet::to_bytes"
     rep.fn(fn)
-    I2 = Interp(crate)
-    out = I2.run_fn(fn)
-    order = []
-    for tgt, kind, payload, n, f, cond in I2.muts:
-        if kind.endswith("extend_from_slice") or "extend_from_slice" in kind:
-            order.append((F.show(cond), sorted(places(payload[0])) if payload else None))
-    want = [("self is V4", ["self#V4.0"]), ("self is V4", ["self#V4.1"]), ("self is V6", ["self#V6.0"]), ("self is V6", ["self#V6.1"])]
-    rep.ob("C02.tables", "%s|%s|order" % (cfg, fn), order == want, "bytes = address followed by mask", expected=want, found=order)
+    import ceval
+    E = ceval.Eval(crate)
+    found = {}
+    for var, n in (("V4", 4), ("V6", 16)):
+        addr = [(29 * i + 5) & 0xff for i in range(n)]
+        mask = [(13 * i + 200) & 0xff for i in range(n)]
+        try:
+            got = E.call(fn, [ceval.Adt(None, "certificate::CidrSubnet::" + var, {"0": list(addr), "1": list(mask)})])
+        except (ceval.Unsupported, ceval.Panic) as e:
+            got = "%s: %s" % (type(e).__name__, e)
+        if got != addr + mask:
+            found[var] = got
+    rep.ob("C02.tables", "%s|%s|order" % (cfg, fn), not found, "bytes = address followed by mask (evaluated on distinct symbolic-free byte patterns for both variants)", expected="addr ++ mask", found=found or "addr ++ mask")
 
 
 def check_report(cfg, crate, rep):
@@ -434,37 +433,35 @@ def places_with_der(v):
 
 
 def check_derive(cfg, crate, rep):
-    """KeyIdMethod::derive: ShaN -> digest::SHAN, truncated to 0..20; PreSpecified -> its bytes."""
+    """KeyIdMethod::derive: ShaN -> digest::SHAN, truncated to 0..20; PreSpecified -> its bytes.
+    The result is specialised per variant of `self` (whatever the shape of the dispatch: one match, a selected digest
+    constant, a helper per arm) and each specialised value is compared with the reference."""
+    from interp import IndexV, specialise, variant_assignment
     fn = "KeyIdMethod::derive"
     rep.fn(fn)
     I = Interp(crate)
-    v = core(I.run_fn(fn)["value"])
-    alts = v.alts if isinstance(v, PhiV) else [(True, v)]
-    pre = [x for c, x in alts if "PreSpecified" in F.show(c) and "!" not in F.show(c)]
-    rep.ob("C02.ski", "%s|%s|PreSpecified" % (cfg, fn), len(pre) == 1 and places(pre[0]) == {"self#PreSpecified.0"}, "pre-specified bytes returned unchanged", found=[x.r() for x in pre])
-    if cfg == "K3":
-        return
-    rest = [x for c, x in alts if x not in pre]
-    ok = False
-    detail = ""
-    from interp import IndexV, StructV
-    if len(rest) == 1:
-        x = core(rest[0])
+    v = I.run_fn(fn)["value"]
+    adt = crate.adts.get("KeyIdMethod") or {}
+    variants = [x["name"] for x in adt.get("variants", [])]
+    want = {"Sha256": "SHA256", "Sha384": "SHA384", "Sha512": "SHA512"}
+    rep.ob("C02.ski", "%s|%s|variants" % (cfg, fn), set(variants) == ({"PreSpecified"} | (set(want) if cfg != "K3" else set())), "the key identifier methods are PreSpecified and (with a crypto back end) SHA-256/384/512", found=variants)
+    tab = {}
+    detail = {}
+    for var in variants:
+        x = core(specialise(v, variant_assignment(v, "self", var)))
+        if var == "PreSpecified":
+            rep.ob("C02.ski", "%s|%s|PreSpecified" % (cfg, fn), places(x) == {"self#PreSpecified.0"} and not [r for r in roots(x) if r.startswith(("op:", "call:"))], "pre-specified bytes returned unchanged", found=x.r()[:160])
+            continue
+        detail[var] = x.r()[:200]
         if isinstance(x, IndexV):
             rb = common.range_bounds(I, x.idx)
-            lo, hi = rb if rb else (None, None)
             dg = core(x.base)
-            detail = "range %s..%s of %s" % (lo, hi, dg.r())
-            if lo == 0 and hi == 20 and isinstance(dg, CallV) and dg.callee.endswith("digest::digest"):
+            if rb == (0, 20) and isinstance(dg, CallV) and dg.callee.endswith("digest::digest") and places(dg.args[1]) == {"subject_public_key_info"} \
+                    and not [r for r in roots(dg.args[1]) if r.startswith("op:")]:
                 m = core(dg.args[0])
-                if isinstance(m, PhiV) and places(dg.args[1]) == {"subject_public_key_info"}:
-                    tab = {}
-                    for c, y in m.alts:
-                        for nm in S._variants_of(c) or []:
-                            tab[nm] = core(y).r().split("::")[-1]
-                    ok = tab == {"Sha256": "SHA256", "Sha384": "SHA384", "Sha512": "SHA512"}
-                    detail += " table %s" % tab
-    rep.ob("C02.ski", "%s|%s|digest" % (cfg, fn), ok, "ShaN -> digest::SHAN over the SPKI, first 20 octets (RFC 7093)", found=detail)
+                tab[var] = m.r().split("::")[-1] if isinstance(m, Def) else m.r()[:60]
+    if cfg != "K3":
+        rep.ob("C02.ski", "%s|%s|digest" % (cfg, fn), tab == want, "ShaN -> digest::SHAN over the SPKI, first 20 octets (RFC 7093)", expected=want, found={"table": tab, "values": detail})
 
 
 def run(ctx):
